@@ -14,14 +14,14 @@ def validate(module, cfg, trace_file, env=None, timeout=600, dfs=False, heap="3g
     out = res["out"]
     if res["rc"] == 124:
         raise MachineryError("trace validation timed out: %s %s" % (module, trace_file))
+    m = re.search(r"Invariant (\S+) is violated", out)
+    if m:
+        # the violating state is the one reached by consuming line n-1 (state 1 = initial)
+        n = len(re.findall(r"^State \d+:", out, re.M))
+        return dict(accepted=False, rejected_at=max(1, n - 1), res=res, why="invariant " + m.group(1))
     m = re.search(r'"REJECTED_AT",\s*(\d+)', out)
     if m:
         return dict(accepted=False, rejected_at=int(m.group(1)), res=res, why="unmatched event")
-    m = re.search(r"Invariant (\S+) is violated", out)
-    if m:
-        # state number of the violating state = consumed lines
-        n = len(re.findall(r"^State \d+:", out, re.M))
-        return dict(accepted=False, rejected_at=max(1, n - 1), res=res, why="invariant " + m.group(1))
     if res["rc"] != 0:
         raise MachineryError("trace validation failed to run (%s):\n%s" % (module, out[-3000:]))
     return dict(accepted=True, rejected_at=None, res=res, why="")
